@@ -242,6 +242,79 @@ def cont4(ctx: Ctx) -> None:
                            construct="elaborate_frame handler: replacement = PRUNE")
 
 
+def _cont5_by_evaluation(ctx: Ctx, mod, fn: ast.FunctionDef):
+    """evaluate extract_child (engine MINI) with an extract_iter stand-in that yields two frames, records n exceptions and
+    returns a leaf: -> ("ok", n_cases) / ("bad", text, construct) / None when outside the evaluator's fragment"""
+    from types import SimpleNamespace as NS
+    from ..minieval import Mini, Raised, Unsupported, _Return
+    params = [a.arg for a in fn.args.args] + [a.arg for a in fn.args.kwonlyargs]
+    if len(params) != 2:
+        return None
+    SliceT = NS(tname="StackSlice")
+    n_ok = 0
+    for is_slice in (False, True):
+        for n in (0, 1, 2, 3):
+            item, leaf = NS(tag="stackitem", is_slice=is_slice), NS(tag="leaf")
+            fr, errs = [NS(tag="frame0"), NS(tag="frame1")], [NS(tag=f"error{i}") for i in range(n)]
+            state = {"k": 0, "list": None}
+
+            def extract_iter(it_, lst_):
+                if it_ is not item or not isinstance(lst_, list):
+                    raise Unsupported("extract_iter called on something else")
+                state["list"] = lst_
+                return NS(tag="iterator", gi_frame=None)
+
+            def nxt(it_, *d_):
+                if state["k"] < len(fr):
+                    state["k"] += 1
+                    return fr[state["k"] - 1]
+                if state["k"] == len(fr):
+                    state["k"] += 1
+                    state["list"].extend(errs)          # everything extract_iter recorded is in the list by the time it returns
+                    raise Raised("StopIteration", NS(tag="StopIteration", value=leaf))
+                raise Unsupported("next() after the iterator finished")
+
+            def isinst(o_, c_):
+                if c_ is not SliceT:
+                    raise Unsupported("isinstance against another class")
+                return o_ is item and is_slice
+
+            def stack(**kw):
+                return NS(kind="Stack", **kw)
+            env = {params[0]: item, params[1]: False, "current_options": NS(with_contexts=True, recurse_child_tasks=False), "StackSlice": SliceT}
+            m = Mini(env, {q: f for q, f in mod.defs.items() if isinstance(f, ast.FunctionDef) and "." not in q and f is not fn},
+                     {"extract_iter": extract_iter, "next": nxt, "isinstance": isinst, "Stack": stack, "ExceptionGroup": lambda msg, lst: NS(kind="group", members=list(lst), same=lst is state["list"])})
+            res = None
+            try:
+                try:
+                    for st in fn.body:
+                        m.stmt(st)
+                except _Return as r:
+                    res = r.value
+            except (Unsupported, Raised):
+                return None
+            except Exception:
+                return None
+            if not isinstance(res, NS) or getattr(res, "kind", None) != "Stack":
+                return None
+            case = f"{n} recorded exception(s)"
+            err = getattr(res, "error", None)
+            if n == 0 and err is not None or n == 1 and err is not errs[0] or n >= 2 and not (isinstance(err, NS) and getattr(err, "kind", "") == "group" and len(err.members) == n and all(a is b for a, b in zip(err.members, errs))):
+                got = "None" if err is None else "the first exception alone" if n and err is errs[0] else "another single exception" if err in errs else f"a group of {len(err.members)}" if getattr(err, "kind", "") == "group" else "something else"
+                want = {0: "None", 1: "that exception itself"}.get(n, f"an ExceptionGroup of all {n}")
+                return ("bad", f"with {case} Stack.error must be {want}, the code computes {got}: recorded faults are lost or mis-shaped", f"len(errors) == {n}")
+            if getattr(res, "leaf", None) is not leaf:
+                return ("bad", "Stack.leaf must be the value extract_iter returns (StopIteration.value)", "leaf")
+            fs = getattr(res, "frames", None)
+            if not isinstance(fs, list) or len(fs) != 2 or any(a is not b for a, b in zip(fs, fr)):
+                return ("bad", "Stack.frames must be the frames extract_iter yielded, in order", "frames")
+            want_root = None if is_slice else item
+            if getattr(res, "root", "missing") is not want_root:
+                return ("bad", f"Stack.root must be {'None for a StackSlice' if is_slice else 'the extracted object'}", "root")
+            n_ok += 1
+    return ("ok", n_ok)
+
+
 def cont5(ctx: Ctx) -> None:
     """CONT-5 extract_child turns the error list into None / the single exception / an ExceptionGroup"""
     mod = _engine_mod(ctx)
@@ -251,6 +324,13 @@ def cont5(ctx: Ctx) -> None:
     it_calls = [c for c in calls_in(fn, True) if ctx.P.resolve_call(mod, c).is_pkg("_extract", "extract_iter")]
     if len(it_calls) != 1 or len(it_calls[0].args) < 2:
         raise AnalysisError("CONT-5: extract_iter(stackitem, errors) call vanished")
+    ev5 = _cont5_by_evaluation(ctx, mod, fn)
+    if ev5 is not None and ev5[0] == "ok":
+        ctx.R.ok("CONT-5", f"extract_child evaluated on {ev5[1]} cases (0-3 recorded exceptions; object / StackSlice)", "error is None / the exception / an ExceptionGroup of all; leaf, frames and root passed through")
+        return
+    if ev5 is not None:
+        ctx.R.fail("CONT-5", mod, fn, ev5[1], construct=ev5[2])
+        return
     errs = norm(it_calls[0].args[1])
     item = norm(it_calls[0].args[0])
     hs = [h for t in contains(fn, ast.Try) for h in t.handlers if h.type is not None and norm(h.type) == "StopIteration"]
@@ -435,6 +515,37 @@ def contw(ctx: Ctx) -> None:
 
 
 # ===================================================================== C10
+def option_default(mod, fn: ast.AST, e: ast.AST) -> Optional[int]:
+    """the integer an expression stands for on the default path: a literal; a module-level constant; `current_options.X` (or a
+    local assigned once from it) where X's class-level default in ExtractOptions and the default of every parameter X of the
+    package's functions are the same int literal (so it differs only when a caller asks for it)"""
+    if isinstance(e, ast.Constant) and isinstance(e.value, int) and not isinstance(e.value, bool):
+        return e.value
+    if isinstance(e, ast.Name):
+        defs = [a for a in walk_scope(fn) if isinstance(a, ast.Assign) and len(a.targets) == 1 and isinstance(a.targets[0], ast.Name) and a.targets[0].id == e.id]
+        if len(defs) == 1:
+            return option_default(mod, fn, defs[0].value)
+        if not defs:
+            top = [a for a in mod.tree.body if isinstance(a, (ast.Assign, ast.AnnAssign)) and norm(a.targets[0] if isinstance(a, ast.Assign) else a.target) == e.id and a.value is not None]
+            if len(top) == 1 and isinstance(top[0].value, ast.Constant) and isinstance(top[0].value.value, int):
+                return top[0].value.value
+        return None
+    if isinstance(e, ast.Attribute) and norm(e.value) == "current_options":
+        cls = [c for c in mod.tree.body if isinstance(c, ast.ClassDef) and c.name == "ExtractOptions"]
+        if not cls:
+            return None
+        vals = [a.value for a in cls[0].body if isinstance(a, (ast.Assign, ast.AnnAssign)) and norm(a.targets[0] if isinstance(a, ast.Assign) else a.target) == e.attr and a.value is not None]
+        if len(vals) != 1 or not (isinstance(vals[0], ast.Constant) and isinstance(vals[0].value, int) and not isinstance(vals[0].value, bool)):
+            return None
+        for f in ast.walk(mod.tree):
+            if isinstance(f, (ast.FunctionDef, ast.AsyncFunctionDef)):
+                for a, d in list(zip(reversed(f.args.args), reversed(f.args.defaults))) + list(zip(f.args.kwonlyargs, f.args.kw_defaults)):
+                    if a.arg == e.attr and d is not None and not (isinstance(d, ast.Constant) and d.value == vals[0].value):
+                        return None
+        return vals[0].value
+    return None
+
+
 def eng1(ctx: Ctx) -> None:
     """ENG-1 progress guard of the unwrap loop"""
     mod = _engine_mod(ctx)
@@ -465,11 +576,15 @@ def eng1(ctx: Ctx) -> None:
     # comparison against a literal bound followed by raise inside the containment try
     cmps = [s for s in ast.walk(loop) if isinstance(s, ast.If) and isinstance(s.test, ast.Compare) and norm(s.test.left) == cnt]
     okb = False
+    nonlit = None
     for s in cmps:
         c = s.test
-        if isinstance(c.ops[0], (ast.Gt, ast.GtE)) and isinstance(c.comparators[0], ast.Constant) and isinstance(c.comparators[0].value, int) \
+        bnd = option_default(mod, fn, c.comparators[0])
+        if isinstance(c.ops[0], (ast.Gt, ast.GtE)) and bnd is None and any(isinstance(x, ast.Raise) for x in s.body):
+            nonlit = c
+        if isinstance(c.ops[0], (ast.Gt, ast.GtE)) and bnd is not None \
                 and any(isinstance(x, ast.Raise) for x in s.body):
-            bound = c.comparators[0].value
+            bound = bnd
             tries = enclosing_tries(mod, s)
             if not tries or not broad_handlers(tries[0]):
                 ctx.R.fail("ENG-1", mod, s, "the 'no progress' RuntimeError is raised outside the containment try: extract() raises instead of ending with an error")
@@ -478,7 +593,9 @@ def eng1(ctx: Ctx) -> None:
             else:
                 okb = True
                 ctx.R.ok("ENG-1", f"{norm(c)} -> raise inside the containment try")
-    if not okb and not any(f.rule == "ENG-1" for f in ctx.R.findings):
+    if not okb and nonlit is not None and not any(f.rule == "ENG-1" for f in ctx.R.findings):
+        ctx.R.undecided("ENG-1", f"the progress bound `{norm(nonlit)}` is not a literal and not an option with a literal default")
+    elif not okb and not any(f.rule == "ENG-1" for f in ctx.R.findings):
         ctx.R.fail("ENG-1", mod, loop, "no `counter > <literal>: raise` test in the unwrap loop", construct="progress bound")
     # reset before the loop and in every branch that records progress
     prev = main.body[main.body.index(loop) - 1] if main.body.index(loop) > 0 else None
@@ -1030,6 +1147,9 @@ def ctx_rules(ctx: Ctx) -> None:
     okb, bound = (False, None)
     if isinstance(it, ast.Call) and norm(it.func) == "range" and len(it.args) == 1:
         okb, bound = resolve_const(mod, loop, it.args[0])
+        if not okb:
+            od = option_default(mod, fn, it.args[0])
+            okb, bound = (od is not None), od
     if okb and bound == 100:
         ctx.R.ok("CTX-3", "loop bounded by range(100)")
     elif okb:
@@ -1223,8 +1343,12 @@ def opt1(ctx: Ctx) -> None:
             while isinstance(v, ast.Call) and norm(v.func) in ("cast", "typing.cast") and len(v.args) == 2:
                 v = v.args[1]
             if isinstance(v, ast.Constant):
+                tested_none = any(isinstance(c, ast.Compare) and len(c.ops) == 1 and isinstance(c.ops[0], (ast.Is, ast.IsNot)) and isinstance(c.comparators[0], ast.Constant) and c.comparators[0].value is None
+                                  and isinstance(c.left, ast.Attribute) and c.left.attr == tgt for c in ast.walk(mod.tree))
                 if v.value is None:
                     ctx.R.ok("OPT-1", f"class-level default {tgt} = None (unset, immutable)")
+                elif not tested_none and isinstance(v.value, (int, str, bool, float)):
+                    ctx.R.ok("OPT-1", f"class-level default {tgt} = {v.value!r} (immutable; nothing tests this option against None to tell 'outside any extraction')")
                 else:
                     ctx.R.fail("OPT-1", mod, s, f"the class-level default of `{tgt}` must be None ('outside any extraction'), found {v.value!r}: extract_child could not tell that it is outside an extraction")
             else:
@@ -1925,6 +2049,240 @@ def eng7(ctx: Ctx) -> None:
                 ctx.R.ok("ENG-7", f"context-inspection failure at line {h.lineno}: recorded only")
 
 
+def eng8(ctx: Ctx) -> None:
+    """ENG-8 the `next_inner` handed to elaborate_frame is the entry at the head of the elaboration queue (or None when the queue
+    is empty).  The insert-before protocol is an identity test against that value and the re-queueing below it relies on the
+    queue head being exactly the object a hook hands back in `(..., next_inner)`: anything else (a list of the remaining items,
+    a copy, the second entry) makes a well-formed insert look like a replacement -- the rest of the stack is dropped -- or
+    leaves the head queued twice.  Decided by evaluating (engine MINI) the statements between the pop of the frame and the
+    elaborate_frame call on queues of 0, 1, 2 remaining entries, frames and non-frames"""
+    from types import SimpleNamespace as NS
+    from ..minieval import Mini, Raised, Unsupported
+    mod = _engine_mod(ctx)
+    fn = mod.fn("extract_iter")
+    main = _main_loop(fn)
+    ecall = [c for c in calls_in(main, True) if ctx.P.resolve_call(mod, c).is_pkg("_customization", "elaborate_frame")]
+    if len(ecall) != 1 or len(ecall[0].args) != 2 or ecall[0].keywords:
+        ctx.R.undecided("ENG-8", "elaborate_frame is not called once with (frame, next_inner) in the main loop")
+        return
+    call = ecall[0]
+    pops = [st for st in main.body if isinstance(st, ast.Assign) and isinstance(st.value, ast.Call) and isinstance(st.value.func, ast.Attribute) and st.value.func.attr == "popleft"
+            and isinstance(st.value.func.value, ast.Name)]
+    top = [st for st in main.body if any(n is call for n in ast.walk(st))]
+    if len(pops) != 1 or len(top) != 1 or main.body.index(pops[0]) > main.body.index(top[0]):
+        ctx.R.undecided("ENG-8", "the pop of the frame and the elaborate_frame call are not statements of the main loop in that order")
+        return
+    queue = pops[0].value.func.value.id
+    between = main.body[main.body.index(pops[0]) + 1:main.body.index(top[0])]
+    arg = call.args[1]
+    want_names = {n.id for n in ast.walk(arg) if isinstance(n, ast.Name)}
+    # statements between the two that take part in computing the argument (assignments / ifs / asserts); the context
+    # inspection (an `if` that calls contexts_active_in_frame) only reads it
+    body = []
+    for st in between:
+        calls_ctx = any(isinstance(c, ast.Call) and isinstance(c.func, ast.Name) and c.func.id in ("contexts_active_in_frame", "fill_context") for c in ast.walk(st))
+        writes = {t.id for n in ast.walk(st) for t in ast.walk(n) if isinstance(t, ast.Name) and isinstance(t.ctx, ast.Store)}
+        if calls_ctx:
+            if writes & want_names:
+                ctx.R.undecided("ENG-8", "the context inspection assigns the value later handed to elaborate_frame")
+                return
+            continue
+        if isinstance(st, ast.Assert):
+            continue
+        body.append(st)
+    FrameT = NS(tname="Frame")
+
+    def isinst(o_, c_):
+        cs = list(c_) if isinstance(c_, (tuple, list)) else [c_]
+        if not all(x is FrameT for x in cs):
+            raise Unsupported("isinstance against another class")
+        return isinstance(o_, NS) and getattr(o_, "is_frame", False)
+    helpers = {q: f for q, f in mod.defs.items() if isinstance(f, ast.FunctionDef) and "." not in q and q != "extract_iter"}
+    shapes = {"empty": [], "one frame": ["F"], "one non-frame": ["X"], "frame then non-frame": ["F", "X"], "two non-frames": ["X", "X"], "two frames": ["F", "F"], "three non-frames": ["X", "X", "X"]}
+    n_ok = 0
+    for label, kinds in shapes.items():
+        items = [NS(is_frame=(k == "F"), tag=f"{k}{i}", pyframe=NS(tag="pyframe")) for i, k in enumerate(kinds)]
+        q = [(it, 3) for it in items]
+        env = {queue: q, "Frame": FrameT, "frame": NS(is_frame=True, tag="popped"), "depth": 3}
+        m = Mini(env, dict(helpers), {"isinstance": isinst})
+        try:
+            if m.run(body) is not None:
+                raise Unsupported("break / continue before elaborate_frame")
+            got = m.expr(arg)
+        except (Unsupported, Raised) as ex:
+            ctx.R.undecided("ENG-8", f"queue of {label}: {ex}")
+            return
+        except Exception as ex:  # evaluator limitation, never a verdict
+            ctx.R.undecided("ENG-8", f"queue of {label}: {type(ex).__name__}")
+            return
+        want = items[0] if items else None
+        if got is not want:
+            what = "None" if got is None else f"the entry at index {[i for i, it in enumerate(items) if it is got][0]}" if any(it is got for it in items) else f"a new {type(got).__name__}"
+            ctx.R.fail("ENG-8", mod, call, f"with {label} left in the elaboration queue, elaborate_frame receives {what} as next_inner instead of {'the queue head' if items else 'None'}: "
+                       "a hook that follows the documented insert protocol `return (extra, next_inner)` is then matched against an object that is not the queued entry -- the remaining stack "
+                       "is handled as replaced / queued twice instead of continuing after the inserted items", construct=f"next_inner with {label} queued")
+            return
+        if len(q) != len(items) or any(a[0] is not b for a, b in zip(q, items)):
+            ctx.R.fail("ENG-8", mod, call, f"computing next_inner changes the elaboration queue ({label})", construct=f"next_inner computation mutates the queue ({label})")
+            return
+        n_ok += 1
+    ctx.R.ok("ENG-8", f"_extract.extract_iter: next_inner evaluated on {n_ok} queue shapes", "always the queue head (identity) or None for an empty queue")
+
+
+_MUTATORS = {"pop", "append", "extend", "insert", "remove", "clear", "reverse", "sort", "popleft", "appendleft", "extendleft", "rotate", "update", "setdefault", "popitem", "add", "discard"}
+
+
+def eng9(ctx: Ctx) -> None:
+    """ENG-9 the engine never changes an object a hook handed back.  A hook may return a sequence it keeps (a task group's list of
+    children, a cached tuple of frames): unwrap_stackitem / elaborate_frame / unwrap_context results are read -- iterated,
+    indexed, reversed() -- but not popped from, appended to, sorted, cleared or sliced-assigned; after such a change the next
+    extraction of the same object finds an emptied / reordered sequence (frames and leaf vanish, no error).  Decided with
+    reaching definitions on the CFG: a mutating use of a local is a violation when a definition that (transitively, through
+    plain `a = b` copies) is a hook call's result reaches it"""
+    mod = _engine_mod(ctx)
+    hooks = ("unwrap_stackitem", "elaborate_frame", "unwrap_context", "elaborate_context")
+    n_sites = n_hook = 0
+    for q in ("extract_iter", "fill_context"):
+        fn = mod.fn(q)
+        g = ctx.cfg(fn)
+        defs: Dict[str, List[ast.stmt]] = {}
+        for st in walk_scope(fn):
+            if isinstance(st, (ast.Assign, ast.AnnAssign, ast.AugAssign, ast.For, ast.With, ast.NamedExpr)):
+                tg = st.targets if isinstance(st, ast.Assign) else [st.target] if isinstance(st, (ast.AnnAssign, ast.AugAssign, ast.For, ast.NamedExpr)) else [i.optional_vars for i in st.items if i.optional_vars is not None]
+                for t in tg:
+                    for nm in ast.walk(t):
+                        if isinstance(nm, ast.Name) and isinstance(nm.ctx, ast.Store):
+                            defs.setdefault(nm.id, []).append(_stmt(mod, st) if not isinstance(st, ast.stmt) else st)
+            elif isinstance(st, ast.ExceptHandler) and st.name:
+                pass
+        def node(st_):
+            try:
+                return g.node_of(st_)
+            except Exception:
+                return None
+
+        def reaching(name: str, use_st: ast.stmt) -> List[ast.stmt]:
+            un = node(use_st)
+            out = []
+            for d in defs.get(name, []):
+                dn = node(d)
+                if dn is None or un is None:
+                    continue
+                others = {node(o).idx for o in defs.get(name, []) if o is not d and node(o) is not None} - {un.idx}
+                if un.idx in g.reachable_from(dn, avoid=others) or (dn.idx == un.idx):
+                    out.append(d)
+            return out
+        tainted: Set[int] = set()
+        for name, ds in defs.items():
+            for d in ds:
+                v = getattr(d, "value", None)
+                if isinstance(d, ast.Assign) and isinstance(v, ast.Call) and len(d.targets) == 1 and isinstance(d.targets[0], ast.Name) and ctx.P.resolve_call(mod, v).kind == "pkg" \
+                        and ctx.P.resolve_call(mod, v).name.split(".")[-1] in hooks:
+                    tainted.add(id(d))
+                    n_hook += 1
+        changed = True
+        while changed:
+            changed = False
+            for name, ds in defs.items():
+                for d in ds:
+                    if id(d) in tainted or not isinstance(d, (ast.Assign, ast.AnnAssign)) or not isinstance(d.value, ast.Name):
+                        continue
+                    if (d.targets if isinstance(d, ast.Assign) else [d.target])[0].__class__ is not ast.Name:
+                        continue
+                    if any(id(r) in tainted for r in reaching(d.value.id, d)):
+                        tainted.add(id(d))
+                        changed = True
+        for n in walk_scope(fn):
+            site = None
+            if isinstance(n, ast.Call) and isinstance(n.func, ast.Attribute) and n.func.attr in _MUTATORS and isinstance(n.func.value, ast.Name):
+                site = (n.func.value.id, f".{n.func.attr}()")
+            elif isinstance(n, ast.Delete):
+                for t in n.targets:
+                    if isinstance(t, ast.Subscript) and isinstance(t.value, ast.Name):
+                        site = (t.value.id, "del [...]")
+            elif isinstance(n, ast.Assign) and any(isinstance(t, ast.Subscript) and isinstance(t.value, ast.Name) for t in n.targets):
+                t0 = [t for t in n.targets if isinstance(t, ast.Subscript) and isinstance(t.value, ast.Name)][0]
+                site = (t0.value.id, "[...] = ")
+            elif isinstance(n, ast.AugAssign) and isinstance(n.target, ast.Name) and isinstance(n.op, (ast.Add, ast.Mult)):
+                site = (n.target.id, " += (in place for a list)")
+            if site is None or site[0] not in defs:
+                continue
+            n_sites += 1
+            st = _stmt(mod, n)
+            src = [r for r in reaching(site[0], st) if id(r) in tainted and r is not st]
+            if src:
+                ctx.R.fail("ENG-9", mod, n, f"{q}: `{norm(n)[:60]}` changes `{site[0]}`, which here can be the very object a hook returned (`{norm(src[0])[:60]}`, line {src[0].lineno}): a hook that hands "
+                           "back a sequence it keeps (its list of children, a cached tuple) finds it emptied / reordered afterwards, and the next extraction of the same object loses those frames without any error",
+                           construct=f"{q}: {site[0]}{site[1]} on a hook result")
+    if n_hook < 3:
+        raise AnalysisError(f"ENG-9: only {n_hook} hook-result assignments found in the engine")
+    ctx.R.ok("ENG-9", f"_extract: {n_sites} in-place changes of locals examined against {n_hook} hook-result definitions", "none can reach an object a hook returned")
+
+
+def eng10(ctx: Ctx) -> None:
+    """ENG-10 a @yields_frames iterator (every StackSlice, hence every thread / greenlet / frame-range extraction) is drained to
+    its end: the loop that calls next() on it leaves only when the iterator is exhausted (StopIteration) or fails (the failure is
+    recorded).  An item counter with a cap -- "probably an infinite loop?" -- cuts the innermost frames of any stack deeper than
+    the cap (the frames of a thread are exactly as many as it has; sys.getrecursionlimit() is neither a bound on another
+    thread's depth nor constant)"""
+    mod = _engine_mod(ctx)
+    fn = mod.fn("extract_iter")
+    loops = []
+    for w in walk_scope(fn):
+        if isinstance(w, (ast.While, ast.For)):
+            nx = [c for st in w.body for c in ast.walk(st) if isinstance(c, ast.Call) and isinstance(c.func, ast.Name) and c.func.id == "next" and len(c.args) == 1]
+            inner = [x for st in w.body for x in ast.walk(st) if isinstance(x, (ast.While, ast.For))]
+            if nx and not any(any(c is y for y in ast.walk(i)) for c in nx for i in inner):
+                loops.append((w, nx))
+    if not loops:
+        ctx.R.undecided("ENG-10", "no loop of extract_iter calls next() on a hook's iterator (the iterator may be drained some other way)")
+        return
+    for w, nx in loops:
+        bad = None
+        own = []
+
+        def collect(stmts, in_handler: Optional[str]):
+            for st in stmts:
+                if isinstance(st, (ast.While, ast.For, ast.FunctionDef, ast.AsyncFunctionDef)):
+                    continue
+                if isinstance(st, (ast.Break, ast.Raise, ast.Return)):
+                    own.append((st, in_handler))
+                if isinstance(st, ast.Try):
+                    collect(st.body, in_handler)
+                    for h in st.handlers:
+                        collect(h.body, norm(h.type) if h.type is not None else "bare")
+                    collect(st.orelse, in_handler)
+                    collect(st.finalbody, in_handler)
+                else:
+                    for fld in ("body", "orelse"):
+                        collect(getattr(st, fld, []) or [], in_handler)
+        collect(w.body, None)
+        extra = [(st, h) for st, h in own if h is None]
+        if isinstance(w, ast.While) and not (isinstance(w.test, ast.Constant) and w.test.value is True):
+            cnt = [n for n in ast.walk(w.test) if isinstance(n, ast.Compare) and any(isinstance(o, (ast.Lt, ast.LtE, ast.Gt, ast.GtE)) for o in n.ops)]
+            if cnt:
+                bad = (w, f"the loop condition `{norm(w.test)[:50]}`")
+        if bad is None and extra:
+            # an exit that is not the reaction to the iterator ending / failing: guarded by a count?
+            for st, _ in extra:
+                gs = [g_ for g_, _pol in _guards(mod, st, w)]
+                if any(isinstance(c_, ast.Compare) and any(isinstance(o, (ast.Lt, ast.LtE, ast.Gt, ast.GtE)) for o in c_.ops) for g_ in gs for c_ in ast.walk(g_)):
+                    bad = (st, f"`{norm(st)[:50]}` under `{norm(gs[-1])[:50]}`")
+                    break
+        if bad is not None:
+            ctx.R.fail("ENG-10", mod, bad[0], f"the loop that drains a hook's frame iterator can stop because of {bad[1]}, i.e. after a number of items: every frame beyond that count is cut from the "
+                       "result (a thread / greenlet / frame range deeper than the cap loses its innermost frames and gets an error instead)", construct="item cap on the FrameIterator drain loop")
+        elif extra:
+            ctx.R.undecided("ENG-10", f"the drain loop has an exit outside its StopIteration / Exception handlers: `{norm(extra[0][0])[:50]}`")
+        else:
+            ctx.R.ok("ENG-10", f"_extract.extract_iter: the loop around `{norm(nx[0])}` ends only in its handlers ({sorted({h for _, h in own if h})})")
+
+
+def _guards(mod: Mod, node: ast.AST, stop: ast.AST):
+    from .opcodes import guards_of
+    return guards_of(mod, node, stop)
+
+
 def eng5(ctx: Ctx) -> None:
     """ENG-5 a frame is handed to the consumer only after elaborate_frame has run for it: in the main loop of extract_iter the
     elaborate_frame call is on every path to `yield frame` (extract_outermost takes one frame and never resumes the generator,
@@ -2345,6 +2703,6 @@ def sig1(ctx: Ctx) -> None:
         raise AnalysisError(f"SIG-1: only {n} hook registrations / calls found (>= 25 confirmed by hand)")
 
 
-C10 = C10 + [sig1, eng5, truth1, truth3]
+C10 = C10 + [sig1, eng5, eng8, eng9, eng10, truth1, truth2, truth3]
 C05 = C05 + [err1, truth2]
 C11 = C11 + [sig1]
